@@ -118,6 +118,7 @@ Section SSpecSound.
     k_first : forall f, q_first cs = Some f ->
         s_init s = true /\ saligned c f /\ f <= base + sooo c + day /\ f <= s_slot s /\
         (s_adv s = false -> s_slot s <= f \/ ssize c < sslide c);
+    k_first0 : q_first cs = None -> s_init s = true -> base + sooo c + day < s_slot s + sslide c;
     k_ont : Forall (fun r => In r (q_seen cs) /\ exists f, q_first cs = Some f /\ f <= align (rts r) (sslide c)) (ont cs);
     k_ont_data : s_adv s = false -> Forall (fun r => In r (s_data s)) (ont cs);
     k_cover : forall r a, In r (ont cs) -> saligned c a -> a <= rts r < a + ssize c -> qfle cs a ->
@@ -131,7 +132,7 @@ Section SSpecSound.
 
   Lemma SK_nb s cs : SK s cs -> SK s (nb cs).
   Proof.
-    intros [? ? ? ? ? ? ? ? ? ? ? ? ? ? ? ? ?].
+    intros [? ? ? ? ? ? ? ? ? ? ? ? ? ? ? ? ? ?].
     constructor; unfold ont, qfle in *; cbn [nb q_seen q_maxts q_ontime q_ontime_new q_first q_dw q_lastw q_fired q_lastadd q_pending];
       try assumption. reflexivity.
   Qed.
@@ -173,7 +174,7 @@ Section SSpecSound.
         { destruct (q_lastw cs) as [l|]; [apply Z.leb_gt; exact Hlt|reflexivity]. }
         rewrite E2. eexists. split; [reflexivity|]. split; [|reflexivity].
         pose proof (pop_cur _ _ _ Epop) as Hcur.
-        destruct HK as [? ? ? ? ? ? ? ? Hfi Hont Hod Hcov ? ? ? ? Hop]. rewrite <- Hcur in Hop.
+        destruct HK as [? ? ? ? ? ? ? ? Hfi Hf00 Hont Hod Hcov ? ? ? ? Hop]. rewrite <- Hcur in Hop.
         constructor; unfold ont, qfle in *; cbn [q_seen q_maxts q_ontime q_ontime_new q_first q_dw q_lastw q_fired q_lastadd q_pending
                           s_init s_slot s_data s_trig s_w s_pend s_adv] in *; try rewrite app_nil_r; try assumption; reflexivity.
       + cbn [schk_evs schk_ev]. rewrite (set_nonbatch_nb cs (k_pending _ _ HK)).
@@ -186,7 +187,7 @@ Section SSpecSound.
     intros HK Hst. pose proof (sstep_SInv c Hslide Hsize s (Tick now) s' evs (k_inv _ _ HK) I Hst) as Hinv'.
     cbn [sstep] in Hst. injection Hst as <- <-. cbn [schk_evs schk_ev]. rewrite (set_nonbatch_nb cs (k_pending _ _ HK)).
     eexists. split; [reflexivity|]. split; [|reflexivity].
-    apply SK_nb. destruct HK as [? Hwk ? ? ? ? ? ? ? ? ? ? ? ? ? ? Hop].
+    apply SK_nb. destruct HK as [? Hwk ? ? ? ? ? ? ? ? ? ? ? ? ? ? ? Hop].
     constructor; cbn [s_init s_slot s_data s_trig s_w s_pend s_adv]; try assumption.
     - apply (tick_WK tc base eq_refl). exact Hwk.
     - eapply Forall_impl; [|exact Hop]. intros b [Hb|Hb]; [left; exact Hb|right; apply tick_mono; exact Hb].
@@ -256,12 +257,13 @@ Section SSpecSound.
     assert (Hal' : saligned c (srest_slot c (s_slot s) wmk)).
     { destruct Hinv' as (_ & J1 & _). apply J1. reflexivity. }
     pose proof (fun t => trig_behind s cs t HK) as Htb.
-    destruct HK as [? Hwk ? ? ? ? ? ? Hfi ? Hod Hcov Hfd Hf0 Htr Htnd Hop].
+    destruct HK as [? Hwk ? ? ? ? ? ? Hfi Hf00 ? Hod Hcov Hfd Hf0 Htr Htnd Hop].
     constructor; unfold ont, qfle in *; unfold s', sclose_expired;
       cbn [q_seen q_maxts q_ontime q_ontime_new q_first q_dw q_lastw q_fired q_lastadd q_pending
            s_init s_slot s_data s_trig s_w s_pend s_adv]; try assumption; try reflexivity.
     - intros f Hf. destruct (Hfi f Hf) as (A & B & C & D & F). split; [reflexivity|]. split; [exact B|]. split; [exact C|].
       split; [lia|]. intros Ha. destruct (Hadv Ha) as [Ha1 Ha2]. rewrite Ha2. apply F. exact Ha1.
+    - intros Hn _. specialize (Hf00 Hn Ei). lia.
     - intros Ha. apply Hod. apply (Hadv Ha).
     - intros r a Hr Haa Hc Hq. destruct (Hcov r a Hr Haa Hc Hq) as [H|[Hin Hle]]; [left; exact H|right].
       split; [exact Hin|].
@@ -358,13 +360,14 @@ Section SSpecSound.
     set (tn := {| t_start := a; t_end := a + ssize c; t_close := a + ssize c + slateness c; t_snap := res |}) in *.
     assert (Hins : insert_twin tn (s_trig s) = s_trig s ++ [tn]).
     { apply insert_twin_last. apply Forall_forall. intros t Ht. destruct (Htb t Ht) as [A B]. cbn [tn t_end]. lia. }
-    destruct HK as [? Hwk ? ? ? ? Hpe ? Hfi ? Hod Hcov Hfd Hf0 Htr Htnd Hop].
+    destruct HK as [? Hwk ? ? ? ? Hpe ? Hfi Hf00 ? Hod Hcov Hfd Hf0 Htr Htnd Hop].
     constructor; unfold ont, qfle in *;
       cbn [q_seen q_maxts q_ontime q_ontime_new q_first q_dw q_lastw q_fired q_lastadd q_pending
            s_init s_slot s_data s_trig s_w s_pend s_adv]; try assumption; try discriminate; try reflexivity.
     - apply Forall_filter. assumption.
     - intros f Ef. destruct (Hfi f Ef) as (A & B & C & D & _). split; [reflexivity|]. split; [exact B|]. split; [exact C|].
       split; [lia|discriminate].
+    - intros Hn _. specialize (Hf00 Hn Hinit). lia.
     - (* covering intervals *)
       intros r a' Hr Haa' Hc Hq. destruct (Hcov r a' Hr Haa' Hc Hq) as [(b & Hb & Hin)|[Hin Hle]].
       + left. exists b. split; [|exact Hin]. unfold find_fired in *. cbn [find bn b_start].
@@ -396,5 +399,383 @@ Section SSpecSound.
         * right. apply Z.ltb_ge in El. cbn [bn b_end]. eapply ole_trans; [|exact Ip]. lia.
       + eapply Forall_impl; [|exact Hop]. intros b [(t & Ht & Hts)|Hr]; [left|right; exact Hr].
         exists t. split; [|exact Hts]. destruct (0 <? slateness c); [|exact Ht]. rewrite Hins. apply in_or_app. left. exact Ht.
+  Qed.
+  (* ---------------- Add ---------------- *)
+  Definition add_cst (s : scst) (id ts : Z) : scst :=
+    let sn := ssane c base ts in
+    let m' := if sn then Some (omax ts (q_maxts s)) else q_maxts s in
+    let ontime := ontime_of (q_maxts s) ts in
+    let late := sn && negb ontime in
+    let pend := if late && (0 <? slateness c)
+                then map b_start (filter (fun b => sinwin c (b_start b) ts &&
+                                            (match m' with Some m => m - sooo c <? b_end b + slateness c | None => false end))
+                                         (q_fired s))
+                else [] in
+    {| q_seen := q_seen s ++ [(id, ts)]; q_maxts := m'; q_ontime := q_ontime s;
+       q_ontime_new := if ontime then q_ontime_new s ++ [(id, ts)] else q_ontime_new s;
+       q_first := if ontime then Some (omin (align ts (sslide c)) (q_first s)) else q_first s;
+       q_dw := q_dw s; q_lastw := q_lastw s; q_fired := q_fired s; q_lastadd := Some (id, ts); q_pending := pend |}.
+
+  Lemma schk_add cs id ts : q_pending cs = [] -> schk_ev c base cs (EvAdd id ts) = inl (add_cst cs id ts).
+  Proof. intros H. cbn [schk_ev]. rewrite (set_nonbatch_nb cs H). reflexivity. Qed.
+
+  Definition upd (s : scst) (F : list batch) (P : list Z) : scst :=
+    {| q_seen := q_seen s; q_maxts := q_maxts s; q_ontime := q_ontime s; q_ontime_new := q_ontime_new s;
+       q_first := q_first s; q_dw := q_dw s; q_lastw := q_lastw s; q_fired := F; q_lastadd := q_lastadd s; q_pending := P |}.
+
+  (* how the re-deliveries caused by one Add change the checker's list of fired intervals *)
+  Definition frel (l : list twin) (F F' : list batch) : Prop :=
+    (forall a b, find_fired a F = Some b -> exists b', find_fired a F' = Some b' /\ incl (b_rows b) (b_rows b')) /\
+    (forall Q : batch -> Prop, Forall Q F ->
+        (forall b', (exists t, In t l /\ b_start b' = t_start t /\ b_end b' = t_end t) -> Q b') -> Forall Q F') /\
+    (F = [] -> F' = []).
+
+  Lemma frel_refl l F : frel l F F.
+  Proof.
+    split; [|split].
+    - intros a b H. exists b. split; [exact H|apply incl_refl].
+    - intros Q H _. exact H.
+    - auto.
+  Qed.
+
+  Lemma slot_facts s ts late sl0 sl :
+    SInv c s -> 0 <= ts ->
+    sl0 = (if s_init s then s_slot s else align ts (sslide c)) ->
+    sl = (if s_init s && negb late && (ts <? sl0) && sinwin c (align ts (sslide c)) ts then align ts (sslide c) else sl0) ->
+    saligned c sl0 /\ saligned c sl /\ sl <= sl0 /\ (late = true -> sl = sl0) /\
+    (late = false -> sl <= align ts (sslide c) \/ sinwin c (align ts (sslide c)) ts = false) /\
+    (sl <> sl0 -> sl = align ts (sslide c) /\ late = false /\ s_init s = true /\ ts < sl0 /\ sinwin c (align ts (sslide c)) ts = true).
+  Proof.
+    intros (I0 & I1 & _) Hts Hsl0 Hsl.
+    pose proof (align_le ts (sslide c) Hslide Hts) as Hal. pose proof (salign_aligned c Hslide ts) as Hala.
+    assert (Sa0 : saligned c sl0).
+    { rewrite Hsl0. destruct (s_init s) eqn:Ei; [apply I1; reflexivity|exact Hala]. }
+    split; [exact Sa0|].
+    destruct (s_init s && negb late && (ts <? sl0) && sinwin c (align ts (sslide c)) ts) eqn:Ec.
+    - apply andb_prop in Ec as [Ec Hw]. apply andb_prop in Ec as [Ec Hlt]. apply andb_prop in Ec as [Hi Hl].
+      apply Z.ltb_lt in Hlt. apply negb_true_iff in Hl. subst sl.
+      split; [exact Hala|]. split; [lia|]. split; [intros H; congruence|]. split; [intros _; left; lia|].
+      intros _. auto.
+    - subst sl. split; [exact Sa0|]. split; [lia|]. split; [reflexivity|]. split; [|intros H; contradiction].
+      intros Hl. apply andb_false_iff in Ec as [Ec|Ec]; [|right; exact Ec].
+      left. apply andb_false_iff in Ec as [Ec|Ec].
+      + apply andb_false_iff in Ec as [Ec|Ec]; [rewrite Ec in Hsl0; lia|]. rewrite Hl in Ec. discriminate.
+      + apply Z.ltb_ge in Ec. apply saligned_le_align; assumption.
+  Qed.
+
+  Lemma ont_add cs id ts F P r :
+    In r (ont (upd (add_cst cs id ts) F P)) <-> In r (ont cs) \/ (ontime_of (q_maxts cs) ts = true /\ r = (id, ts)).
+  Proof.
+    unfold ont. cbn [upd add_cst q_ontime q_ontime_new]. destruct (ontime_of (q_maxts cs) ts).
+    - rewrite app_assoc. split.
+      + intros H. apply in_app_or in H as [H|[H|[]]]; [left; exact H|right; auto].
+      + intros [H|[_ H]]; apply in_or_app; [left; exact H|right; left; auto].
+    - split; [intros H; left; exact H|intros [H|[H _]]; [exact H|discriminate]].
+  Qed.
+
+  Lemma sinwin_align_false ts : 0 <= ts -> sinwin c (align ts (sslide c)) ts = false -> ssize c < sslide c.
+  Proof.
+    intros Hts H. pose proof (align_le ts (sslide c) Hslide Hts) as Hal. unfold sinwin in H.
+    apply andb_false_iff in H as [H|H]; [apply Z.leb_gt in H|apply Z.ltb_ge in H]; lia.
+  Qed.
+
+  (* the invariant after an Add; l = the triggered windows that were re-delivered, F' = the checker's fired list afterwards *)
+  Lemma add_SK s cs id ts s1 (l : list twin) F' w' late sl0 sl :
+    SK s cs -> 0 <= ts -> ~ In id (map rid (q_seen cs)) ->
+    w' = update_event_time (sooo c) base ts (s_w s) -> late = is_late ts w' ->
+    sl0 = (if s_init s then s_slot s else align ts (sslide c)) ->
+    sl = (if s_init s && negb late && (ts <? sl0) && sinwin c (align ts (sslide c)) ts then align ts (sslide c) else sl0) ->
+    s_init s1 = true -> s_slot s1 = sl -> s_w s1 = w' -> s_pend s1 = s_pend s -> s_adv s1 = s_adv s ->
+    (s_data s1 = s_data s ++ [(id, ts)] \/ (late = true /\ s_data s1 = s_data s)) ->
+    SInv c s1 ->
+    Forall (SKT F' (q_seen cs ++ [(id, ts)])) (s_trig s1) -> map t_start (s_trig s1) = map t_start (s_trig s) ->
+    frel l (q_fired cs) F' -> (forall t, In t l -> In t (s_trig s) /\ late = true) ->
+    SK s1 (upd (add_cst cs id ts) F' []).
+  Proof.
+    intros HK Hts Hfresh Hw' Hlate Hsl0 Hsl Hi1 Hsl1 Hw1 Hp1 Ha1 Hd1 Hinv1 Htr1 Hst1 (Hfr1 & Hfr2 & Hfr3) Hl.
+    pose proof (k_inv _ _ HK) as Hinv. pose proof Hinv as (I0 & I1 & Ia & Iw & Ip).
+    destruct (slot_facts s ts late sl0 sl Hinv Hts Hsl0 Hsl) as (Sa0 & Sa & Sle & Slate & Snl & Sne).
+    pose proof (late_iff (s_w s) (q_seen cs) (q_maxts cs) (q_lastw cs) id ts (k_wk _ _ HK)) as Hli.
+    rewrite <- Hw', <- Hlate in Hli.
+    pose proof (align_le ts (sslide c) Hslide Hts) as Hal. pose proof (salign_aligned c Hslide ts) as Hala.
+    assert (Hinit_adv : s_adv s = true -> s_init s = true).
+    { intros Hadv. destruct (s_init s) eqn:Ei; [reflexivity|]. destruct (I0 eq_refl) as (_ & _ & A). congruence. }
+    assert (Sadv : s_adv s = true -> sl = s_slot s).
+    { intros Hadv. pose proof (Hinit_adv Hadv) as Ei. destruct (Z.eq_dec sl sl0) as [E|N]; [rewrite E, Hsl0, Ei; reflexivity|exfalso].
+      destruct (Sne N) as (E1 & E2 & _ & E4 & E5). rewrite Hsl0, Ei in E4. rewrite Hlate, Hw' in E2.
+      exact (no_realign_after_advance c Hslide Hsize s ts _ Hinv Hadv (fun x => uet_mono (sooo c) base ts (s_w s) x) E2 Ei E4 E5 Hts). }
+    assert (Hsl0i : s_init s = true -> sl0 = s_slot s) by (intros Ei; rewrite Hsl0, Ei; reflexivity).
+    assert (Hd1' : forall x, In x (s_data s) -> In x (s_data s1)).
+    { intros x Hx. destruct Hd1 as [E|[_ E]]; rewrite E; [apply in_or_app; left; exact Hx|exact Hx]. }
+    (* covering intervals of a row that is not late start at or after the slot once the slot has advanced *)
+    assert (Hnew_adv : s_adv s = true -> late = false -> forall a, saligned c a -> a <= ts < a + ssize c -> sl <= a).
+    { intros Hadv Hlf a Haa Hc. rewrite (Sadv Hadv). specialize (Ia Hadv).
+      apply (uet_mono (sooo c) base ts) in Ia. rewrite <- Hw' in Ia. rewrite Hlate in Hlf. unfold is_late in Hlf.
+      destruct (cur w') as [cu|]; [|contradiction]. cbn [ole] in Ia. apply Z.ltb_ge in Hlf.
+      apply saligned_gap; [apply I1; apply Hinit_adv; exact Hadv|exact Haa|lia]. }
+    (* the first on-time start against the slot *)
+    assert (Hfirst' : forall f', (if ontime_of (q_maxts cs) ts then Some (omin (align ts (sslide c)) (q_first cs)) else q_first cs) = Some f' ->
+               saligned c f' /\ f' <= base + sooo c + day /\ f' <= sl /\ (s_adv s = false -> sl <= f' \/ ssize c < sslide c)).
+    { intros f' Hf'. destruct (ontime_of (q_maxts cs) ts) eqn:Eot.
+      - assert (Hlf : late = false) by (rewrite Hli; cbn [negb]; apply andb_false_r).
+        assert (Hsn : ts <= base + sooo c + day).
+        { unfold ontime_of in Eot. apply andb_prop in Eot as [Eot _]. unfold ssane in Eot. apply Z.leb_le in Eot. exact Eot. }
+        destruct (q_first cs) as [f|] eqn:Ef; cbn [omin] in Hf'; injection Hf' as <-.
+        + destruct (k_first _ _ HK f Ef) as (A & B & C & D & F). pose proof (Hsl0i A) as Hs0.
+          split; [destruct (Z.min_spec (align ts (sslide c)) f) as [[_ ->]|[_ ->]]; assumption|].
+          split; [lia|]. split.
+          { destruct (Z.eq_dec sl sl0) as [E|N]; [lia|]. destruct (Sne N) as (E1 & _). rewrite E1. lia. }
+          intros Hadv. destruct (F Hadv) as [F1|F2]; [|right; exact F2].
+          destruct (Snl Hlf) as [S1|S2]; [left; lia|right; apply (sinwin_align_false ts Hts S2)].
+        + split; [exact Hala|]. split; [lia|]. split.
+          { destruct (s_init s) eqn:Ei.
+            - pose proof (k_first0 _ _ HK Ef Ei) as Hb. destruct (Z.eq_dec sl sl0) as [E|N].
+              + rewrite E, Hsl0. apply saligned_gap; [exact Hala|apply I1; reflexivity|lia].
+              + destruct (Sne N) as (E1 & _). rewrite E1. lia.
+            - destruct (Z.eq_dec sl sl0) as [E|N]; [rewrite E, Hsl0; lia|]. destruct (Sne N) as (E1 & _). rewrite E1. lia. }
+          intros Hadv. destruct (Snl Hlf) as [S1|S2]; [left; lia|right; apply (sinwin_align_false ts Hts S2)].
+      - destruct (k_first _ _ HK f' Hf') as (A & B & C & D & F). pose proof (Hsl0i A) as Hs0.
+        split; [exact B|]. split; [exact C|]. split.
+        { destruct (Z.eq_dec sl sl0) as [E|N]; [lia|]. destruct (Sne N) as (E1 & E2 & _). rewrite E1.
+          apply saligned_le_align; [exact B|exact Hts|].
+          rewrite Hli in E2. cbn [negb] in E2. rewrite andb_true_r in E2. unfold ssane in E2. apply Z.leb_gt in E2. lia. }
+        intros Hadv. destruct (F Hadv) as [F1|F2]; [left; lia|right; exact F2]. }
+    assert (Hnd' : NoDup (map rid (q_seen cs ++ [(id, ts)]))).
+    { rewrite map_app. cbn [map rid fst]. apply NoDup_snoc; [exact (k_nodup _ _ HK)|exact Hfresh]. }
+    assert (Hnn' : Forall (fun r => 0 <= rts r) (q_seen cs ++ [(id, ts)])).
+    { apply Forall_app. split; [exact (k_nonneg _ _ HK)|constructor; [exact Hts|constructor]]. }
+    assert (Hfired' : Forall (fun b => b_start b + sslide c <= sl /\ b_end b = b_start b + ssize c) (q_fired cs)).
+    { destruct (s_adv s) eqn:Eadv; [rewrite (Sadv eq_refl); exact (k_fired _ _ HK)|].
+      rewrite (k_fired0 _ _ HK Eadv). constructor. }
+    assert (Hlsl : forall t, In t l -> t_start t + sslide c <= sl /\ t_end t = t_start t + ssize c).
+    { intros t Ht. destruct (Hl t Ht) as [Hin Hlt]. destruct (trig_behind s cs t HK Hin) as [A B]. split; [|exact B].
+      rewrite (Slate Hlt), Hsl0. destruct (s_init s) eqn:Ei; [exact A|]. destruct (I0 eq_refl) as (_ & E & _). rewrite E in Hin. contradiction. }
+    pose proof (k_ont _ _ HK) as Hont. pose proof (k_nonneg _ _ HK) as Hnn. rewrite Forall_forall in Hnn.
+    constructor; try assumption.
+    - (* watermark *) rewrite Hw1, Hw'. exact (uet_WK tc base (s_w s) (q_seen cs) (q_maxts cs) (q_lastw cs) id ts (k_wk _ _ HK)).
+    - (* buffer rows were seen *)
+      cbn [upd add_cst q_seen]. pose proof (k_data _ _ HK) as Hds.
+      assert (Hds' : Forall (fun r => In r (q_seen cs ++ [(id, ts)])) (s_data s)).
+      { eapply Forall_impl; [|exact Hds]. intros r Hr. apply in_or_app. left. exact Hr. }
+      destruct Hd1 as [E|[_ E]]; rewrite E; [|exact Hds'].
+      apply Forall_app. split; [exact Hds'|constructor; [apply in_or_app; right; left; reflexivity|constructor]].
+    - cbn [upd add_cst q_dw]. rewrite Hp1. exact (k_dw _ _ HK).
+    - reflexivity.
+    - (* k_mxf *)
+      cbn [upd add_cst q_maxts q_first]. intros Hm. unfold ontime_of.
+      destruct (ssane c base ts) eqn:Es; cbn [andb].
+      + destruct (q_maxts cs) as [m|] eqn:Em; [|discriminate].
+        destruct (m - sooo c <=? ts); [discriminate|]. apply (k_mxf _ _ HK). rewrite Em. discriminate.
+      + apply (k_mxf _ _ HK). exact Hm.
+    - (* k_first *)
+      cbn [upd add_cst q_first]. intros f' Hf'. destruct (Hfirst' f' Hf') as (A & B & C & D).
+      split; [exact Hi1|]. split; [exact A|]. split; [exact B|]. rewrite Hsl1, Ha1. split; [exact C|exact D].
+    - (* k_first0 *)
+      cbn [upd add_cst q_first]. intros Hn _. rewrite Hsl1.
+      destruct (ontime_of (q_maxts cs) ts) eqn:Eot; [discriminate|].
+      assert (Hmn : q_maxts cs = None).
+      { destruct (q_maxts cs) as [m|] eqn:Em; [|reflexivity]. exfalso. apply (k_mxf _ _ HK); [rewrite Em; discriminate|exact Hn]. }
+      assert (Hns : base + sooo c + day < ts).
+      { unfold ontime_of in Eot. rewrite Hmn, andb_true_r in Eot. unfold ssane in Eot. apply Z.leb_gt in Eot. exact Eot. }
+      destruct (Z.eq_dec sl sl0) as [E|N].
+      + rewrite E, Hsl0. destruct (s_init s) eqn:Ei; [apply (k_first0 _ _ HK Hn Ei)|lia].
+      + destruct (Sne N) as (E1 & _). rewrite E1. lia.
+    - (* k_ont *)
+      apply Forall_forall. intros r Hr. apply ont_add in Hr. cbn [upd add_cst q_seen q_first]. destruct Hr as [Hr|[Eot ->]].
+      + rewrite Forall_forall in Hont. destruct (Hont r Hr) as (Hrs & f & Ef & Hfa). split; [apply in_or_app; left; exact Hrs|].
+        destruct (ontime_of (q_maxts cs) ts); [|exists f; auto].
+        rewrite Ef. cbn [omin]. eexists. split; [reflexivity|lia].
+      + split; [apply in_or_app; right; left; reflexivity|]. rewrite Eot. eexists. split; [reflexivity|].
+        cbn [rts snd]. unfold omin. destruct (q_first cs); lia.
+    - (* k_ont_data *)
+      rewrite Ha1. intros Hadv. apply Forall_forall. intros r Hr. apply ont_add in Hr as [Hr|[Eot ->]].
+      + apply Hd1'. pose proof (k_ont_data _ _ HK Hadv) as H. rewrite Forall_forall in H. apply H. exact Hr.
+      + destruct Hd1 as [E|[E _]]; [rewrite E; apply in_or_app; right; left; reflexivity|].
+        rewrite Hli, Eot in E. cbn [negb] in E. rewrite andb_false_r in E. discriminate.
+    - (* k_cover *)
+      intros r a Hr Haa Hc Hq. apply ont_add in Hr. unfold qfle in Hq. cbn [upd add_cst q_first q_fired] in Hq |- *. rewrite Hsl1.
+      destruct Hr as [Hr|[Eot ->]].
+      + rewrite Forall_forall in Hont. destruct (Hont r Hr) as (Hrs & f & Ef & Hfa).
+        destruct (k_first _ _ HK f Ef) as (A & B & C & D & F). pose proof (Hsl0i A) as Hs0.
+        destruct (Z_le_gt_dec f a) as [Hfa'|Hfa'].
+        * assert (Hq0 : qfle cs a) by (intros f0 Ef0; rewrite Ef in Ef0; injection Ef0 as <-; exact Hfa').
+          destruct (k_cover _ _ HK r a Hr Haa Hc Hq0) as [(b & Hb & Hin)|[Hin Hle]].
+          -- left. destruct (Hfr1 a b Hb) as (b' & Hb' & Hincl). exists b'. split; [exact Hb'|apply Hincl; exact Hin].
+          -- right. split; [apply Hd1'; exact Hin|lia].
+        * (* the first on-time start has just decreased below a *)
+          destruct (ontime_of (q_maxts cs) ts) eqn:Eot; [|specialize (Hq f Ef); lia].
+          rewrite Ef in Hq. cbn [omin] in Hq. specialize (Hq _ eq_refl).
+          assert (Hlf : late = false) by (rewrite Hli; cbn [negb]; apply andb_false_r).
+          destruct (Z_lt_le_dec (ssize c) (sslide c)) as [Hgap|Hng].
+          -- exfalso. pose proof (cover_unique a (rts r) Hgap (Hnn r Hrs) Haa Hc). lia.
+          -- assert (Hcts : align ts (sslide c) <= ts < align ts (sslide c) + ssize c) by lia.
+             destruct (s_adv s) eqn:Eadv.
+             ++ exfalso. pose proof (Hnew_adv eq_refl Hlf _ Hala Hcts). rewrite (Sadv eq_refl) in H. lia.
+             ++ right. split.
+                { apply Hd1'. pose proof (k_ont_data _ _ HK Eadv) as H. rewrite Forall_forall in H. apply H. exact Hr. }
+                destruct (Snl Hlf) as [S1|S2]; [lia|]. pose proof (sinwin_align_false ts Hts S2). lia.
+      + (* the row just added *)
+        cbn [rts snd] in Hc. rewrite Eot in Hq.
+        assert (Hlf : late = false) by (rewrite Hli, Eot; cbn [negb]; apply andb_false_r).
+        right. split.
+        { destruct Hd1 as [E|[E _]]; [rewrite E; apply in_or_app; right; left; reflexivity|congruence]. }
+        destruct (s_adv s) eqn:Eadv; [apply (Hnew_adv eq_refl Hlf a Haa Hc)|].
+        specialize (Hq _ eq_refl). rewrite Eot in Hfirst'. destruct (Hfirst' _ eq_refl) as (_ & _ & _ & G).
+        destruct (G eq_refl) as [G1|G2]; [lia|].
+        pose proof (cover_unique a ts G2 Hts Haa Hc) as Ea. destruct (Snl Hlf) as [S1|S2]; [lia|].
+        exfalso. unfold sinwin in S2. rewrite <- Ea in S2. apply andb_false_iff in S2 as [S2|S2]; [apply Z.leb_gt in S2|apply Z.ltb_ge in S2]; lia.
+    - (* k_fired *)
+      cbn [upd q_fired]. rewrite Hsl1. apply Hfr2; [exact Hfired'|].
+      intros b' (t & Ht & Hbs & Hbe). destruct (Hlsl t Ht) as [A B]. split; lia.
+    - cbn [upd q_fired]. rewrite Ha1. intros Hadv. apply Hfr3. apply (k_fired0 _ _ HK Hadv).
+    - rewrite Hst1. exact (k_trig_nd _ _ HK).
+    - (* k_open *)
+      cbn [upd q_fired]. rewrite Hw1.
+      assert (Hsame : forall t, In t (s_trig s) -> exists t1, In t1 (s_trig s1) /\ t_start t1 = t_start t).
+      { intros t Ht. assert (Hin : In (t_start t) (map t_start (s_trig s1))) by (rewrite Hst1; apply in_map; exact Ht).
+        apply in_map_iff in Hin as (t1 & E & Hin). exists t1. auto. }
+      apply Hfr2.
+      + eapply Forall_impl; [|exact (k_open _ _ HK)]. intros b [(t & Ht & Hts')|Hr].
+        * left. destruct (Hsame t Ht) as (t1 & Hin & E). exists t1. split; [exact Hin|congruence].
+        * right. rewrite Hw'. apply uet_mono. exact Hr.
+      + intros b' (t & Ht & Hbs & Hbe). left. destruct (Hl t Ht) as [Hin _]. destruct (Hsame t Hin) as (t1 & Hin1 & E).
+        exists t1. split; [exact Hin1|congruence].
+  Qed.
+  Lemma SKT_mono fired seen r t : SKT fired seen t -> SKT fired (seen ++ [r]) t.
+  Proof.
+    intros (A & B & C & D & E). split; [exact A|]. split; [exact B|]. split; [exact C|]. split; [|exact E].
+    eapply Forall_impl; [|exact D]. intros x [H1 H2]. split; [exact H1|apply in_or_app; left; exact H2].
+  Qed.
+
+  Lemma late_updates_none ts d l : existsb (fun t => in_twin t ts) l = false -> late_updates ts d l = (l, []).
+  Proof.
+    induction l as [|t r IH]; cbn [existsb late_updates]; [reflexivity|]. intros H. apply orb_false_iff in H as [H1 H2].
+    rewrite (IH H2), H1. reflexivity.
+  Qed.
+
+  (* the paths of Add: either nothing is re-delivered, or (late row, lateness > 0) every open triggered window holding ts is *)
+  Lemma sadd_core_cases id ts s s1 bs : sadd_core c id ts base s = (s1, bs) ->
+    let late := is_late ts (update_event_time (sooo c) base ts (s_w s)) in
+    (s_data s1 = s_data s ++ [(id, ts)] \/ (late = true /\ s_data s1 = s_data s)) /\
+    ( (s_trig s1 = s_trig s /\ bs = [] /\ (late = true -> (0 <? slateness c) = false))
+      \/ (late = true /\ (0 <? slateness c) = true /\ late_updates ts (s_data s ++ [(id, ts)]) (s_trig s) = (s_trig s1, bs)) ).
+  Proof.
+    unfold sadd_core. cbn zeta.
+    destruct (is_late ts (update_event_time (sooo c) base ts (s_w s))) eqn:El.
+    2:{ intros [= <- <-]. cbn [s_data s_trig]. split; [left; reflexivity|]. left. split; [reflexivity|]. split; [reflexivity|discriminate]. }
+    destruct (0 <? slateness c) eqn:E0.
+    - destruct (sinwin c _ ts).
+      + destruct (late_updates ts (s_data s ++ [(id, ts)]) (s_trig s)) as [tr bs0] eqn:Elu. intros [= <- <-]. cbn [s_data s_trig].
+        split; [left; reflexivity|]. right. auto.
+      + destruct (existsb (fun t => in_twin t ts) (s_trig s)) eqn:Eex.
+        * destruct (late_updates ts (s_data s ++ [(id, ts)]) (s_trig s)) as [tr bs0] eqn:Elu. intros [= <- <-]. cbn [s_data s_trig].
+          split; [left; reflexivity|]. right. auto.
+        * intros [= <- <-]. cbn [s_data s_trig]. split; [right; auto|]. right. split; [reflexivity|]. split; [reflexivity|].
+          apply late_updates_none. exact Eex.
+    - destruct (sinwin c _ ts); intros [= <- <-]; cbn [s_data s_trig].
+      + split; [left; reflexivity|]. left. auto.
+      + split; [right; auto|]. left. auto.
+  Qed.
+
+  Lemma upd_same x F P : q_fired x = F -> q_pending x = P -> x = upd x F P.
+  Proof. destruct x. cbn. intros <- <-. reflexivity. Qed.
+
+  Section Add.
+    Variables (s : sst) (cs : scst) (id ts : Z) (s1 : sst) (bs : list batch).
+    Hypothesis HK : SK s cs.
+    Hypothesis Hts : 0 <= ts.
+    Hypothesis Hfresh : ~ In id (map rid (q_seen cs)).
+    Hypothesis Ea : sadd_core c id ts base s = (s1, bs).
+
+    (* an Add that causes no re-delivery (always so with lateness = 0, and for rows that are not late) *)
+    Lemma add_plain_sound :
+      s_trig s1 = s_trig s -> bs = [] -> (is_late ts (update_event_time (sooo c) base ts (s_w s)) = true -> (0 <? slateness c) = false) ->
+      exists cs', schk_evs cs (EvAdd id ts :: map EvBatch bs) = inl cs' /\ SK s1 cs' /\ q_seen cs' = q_seen cs ++ [(id, ts)].
+    Proof.
+      intros Ht -> Hlat.
+      pose proof (sadd_core_SInv c Hslide Hsize id ts base s s1 [] (k_inv _ _ HK) Hts Ea) as Hinv1.
+      destruct (sadd_core_shape c id ts base s s1 [] Ea) as (Si & Sw & Sp & Sa & Ss & _ & _). cbn zeta in Ss.
+      destruct (sadd_core_cases id ts s s1 [] Ea) as (Hd1 & _). cbn zeta in Hd1.
+      cbn [map schk_evs]. rewrite (schk_add cs id ts (k_pending _ _ HK)).
+      assert (Hpend : q_pending (add_cst cs id ts) = []).
+      { cbn [add_cst q_pending]. destruct (ssane c base ts && negb (ontime_of (q_maxts cs) ts)) eqn:El; [|reflexivity]. cbn [andb].
+        rewrite <- (late_iff (s_w s) (q_seen cs) (q_maxts cs) (q_lastw cs) id ts (k_wk _ _ HK)) in El.
+        rewrite (Hlat El). reflexivity. }
+      exists (upd (add_cst cs id ts) (q_fired cs) []). split; [f_equal; apply upd_same; [reflexivity|exact Hpend]|].
+      split; [|reflexivity].
+      apply (add_SK s cs id ts s1 [] (q_fired cs) _ _ _ _ HK Hts Hfresh eq_refl eq_refl eq_refl eq_refl Si Ss Sw Sp Sa Hd1 Hinv1).
+      - rewrite Ht. eapply Forall_impl; [|exact (k_trig _ _ HK)]. intros t. apply SKT_mono.
+      - rewrite Ht. reflexivity.
+      - apply frel_refl.
+      - intros t [].
+    Qed.
+  End Add.
+
+  (* ---------------- every step, every history: ALLOWEDLATENESS = 0 ---------------- *)
+  Definition sop_okc (cs : scst) (o : op) : Prop :=
+    match o with Add id ts now => now = base /\ 0 <= ts /\ ~ In id (map rid (q_seen cs)) | _ => True end.
+
+  Definition step_sound_stmt : Prop := forall s cs o s' evs,
+    SK s cs -> sop_okc cs o -> sstep c s o = (s', evs) ->
+    exists cs', schk_evs cs evs = inl cs' /\ SK s' cs' /\ map rid (q_seen cs') = map rid (q_seen cs) ++ op_ids o.
+
+  Lemma step_sound_from_add :
+    (forall s cs id ts s1 bs, SK s cs -> 0 <= ts -> ~ In id (map rid (q_seen cs)) -> sadd_core c id ts base s = (s1, bs) ->
+       exists cs', schk_evs cs (EvAdd id ts :: map EvBatch bs) = inl cs' /\ SK s1 cs' /\ q_seen cs' = q_seen cs ++ [(id, ts)]) ->
+    step_sound_stmt.
+  Proof.
+    intros Hadd s cs o s' evs HK Hok Hst. destruct o as [id ts now|id| | |now].
+    - destruct Hok as (-> & Hts & Hfresh). cbn [sstep] in Hst. unfold sadd in Hst.
+      destruct (sadd_core c id ts base s) as [s1 bs] eqn:Ea. injection Hst as <- <-.
+      destruct (Hadd s cs id ts s1 bs HK Hts Hfresh Ea) as (cs' & A & B & C).
+      exists cs'. split; [exact A|]. split; [exact B|]. rewrite C, map_app. reflexivity.
+    - cbn [sstep] in Hst. injection Hst as <- <-. cbn [schk_evs schk_ev]. rewrite (set_nonbatch_nb cs (k_pending _ _ HK)).
+      eexists. split; [reflexivity|]. split; [apply SK_nb; exact HK|]. cbn [op_ids nb q_seen]. rewrite app_nil_r. reflexivity.
+    - destruct (deliver_begin_sound s cs s' evs HK Hst) as (cs' & A & B & C).
+      exists cs'. split; [exact A|]. split; [exact B|]. rewrite C. cbn [op_ids]. rewrite app_nil_r. reflexivity.
+    - destruct (fire_step_sound s cs s' evs HK Hst) as (cs' & A & B & C).
+      exists cs'. split; [exact A|]. split; [exact B|]. rewrite C. cbn [op_ids]. rewrite app_nil_r. reflexivity.
+    - destruct (tick_sound s cs now s' evs HK Hst) as (cs' & A & B & C).
+      exists cs'. split; [exact A|]. split; [exact B|]. rewrite C. cbn [op_ids]. rewrite app_nil_r. reflexivity.
+  Qed.
+
+  Lemma run_sound_from_step : step_sound_stmt -> forall h s cs,
+    SK s cs -> Forall (hist_op_ok base) h -> NoDup (map rid (q_seen cs) ++ hids h) ->
+    schk_trace c base cs (snd (srun c s h)) = None.
+  Proof.
+    intros Hstep. induction h as [|o h IH]; intros s cs HK Hok Hnd.
+    - cbn [srun snd schk_trace]. rewrite (k_pending _ _ HK). reflexivity.
+    - inversion Hok as [|o' h' Ho Hh]; subst. cbn [srun].
+      destruct (sstep c s o) as [s1 e1] eqn:E1. destruct (srun c s1 h) as [s2 e2] eqn:E2. cbn [snd].
+      assert (Hokc : sop_okc cs o).
+      { destruct o as [id ts now| | | |]; cbn; auto. destruct Ho as [Hn Ht]. split; [exact Hn|]. split; [exact Ht|].
+        cbn [hids flat_map op_ids app] in Hnd. intros Hin. apply NoDup_remove_2 in Hnd. apply Hnd. apply in_or_app. left. exact Hin. }
+      destruct (Hstep s cs o s1 e1 HK Hokc E1) as (cs' & A & B & C).
+      rewrite schk_trace_app, A. specialize (IH s1 cs' B Hh). rewrite E2 in IH. cbn [snd] in IH. apply IH.
+      rewrite C. cbn [hids flat_map] in Hnd. rewrite <- app_assoc. exact Hnd.
+  Qed.
+
+  Lemma SK0 : SK sst0 scst0.
+  Proof.
+    constructor; cbn; try (constructor; fail); auto; try discriminate.
+    - apply SInv_0.
+    - constructor; cbn; try constructor; try reflexivity. intros m H; discriminate.
+    - intros r a [].
+  Qed.
+
+  Lemma step_sound_lat0 : slateness c = 0 -> step_sound_stmt.
+  Proof.
+    intros Hl0. apply step_sound_from_add. intros s cs id ts s1 bs HK Hts Hfresh Ea.
+    destruct (sadd_core_cases id ts s s1 bs Ea) as (_ & [(Ht & Hb & Hlat)|(_ & Hlat & _)]).
+    - exact (add_plain_sound s cs id ts s1 bs HK Hts Hfresh Ea Ht Hb Hlat).
+    - rewrite Hl0 in Hlat. discriminate.
+  Qed.
+
+  (* every clause of the executable checker holds of every trace of the model, for all histories of atomic steps
+     (ALLOWEDLATENESS = 0: Add never emits a batch) *)
+  Theorem sliding_model_passes_checker_lat0 h :
+    slateness c = 0 -> Forall (hist_op_ok base) h -> NoDup (hids h) -> chk_C08 c base (snd (srun c sst0 h)) = None.
+  Proof.
+    intros Hl0 Hok Hnd. unfold chk_C08. apply (run_sound_from_step (step_sound_lat0 Hl0) h sst0 scst0 SK0 Hok). exact Hnd.
   Qed.
 End SSpecSound.
